@@ -294,7 +294,7 @@ func scenario(c construct, n, k, w int, stop string, blocking bool) vs.Scenario 
 var _ = atomic.Int64{}
 
 func build(tier string) ([]runner.Instance, time.Duration) {
-	bound, budget := 2, 80*time.Second
+	bound, budget := 1, 80*time.Second
 	maxN, maxW := 2, 2
 	if tier == "thorough" {
 		bound, budget, maxN = 3, 14*time.Minute, 3
@@ -305,8 +305,8 @@ func build(tier string) ([]runner.Instance, time.Duration) {
 	}
 	for _, c := range constructs() {
 		bnd := bound
-		if strings.Contains(c.name, "/") && tier != "thorough" {
-			bnd = 1 // option variants: quick explores them one level less deep
+		if strings.Contains(c.name, "/") && tier == "thorough" {
+			bnd = bound - 1 // option variants: one level less deep
 		}
 		for w := 1; w <= maxW; w++ {
 			for n := 1; n <= maxN; n++ {
@@ -365,8 +365,8 @@ func build(tier string) ([]runner.Instance, time.Duration) {
 					if c.name == "BufferedChannel" && stop == "close" {
 						continue
 					}
-					add(c, 3, 0, 2, stop, false, bound)
-					add(c, 4, 1, 2, stop, false, bound) // one item read, three more for two buffer slots
+					add(c, 3, 0, 2, stop, false, bound+1)
+					add(c, 4, 1, 2, stop, false, bound+1) // one item read, three more for two buffer slots
 				}
 			}
 		}
